@@ -1,6 +1,7 @@
 package gomatrixserverlib
 
 import (
+	"bytes"
 	"context"
 	"fmt"
 
@@ -159,6 +160,18 @@ func VerifyAuthRulesAtState(ctx context.Context, sp StateProvider, eventToVerify
 	for _, stateEvent := range roomState {
 		if stateEvent == nil {
 			continue
+		}
+		// A room state has one event per (type, state_key). The state comes from another server and
+		// roomState is a map: were a second, different event allowed to replace the first, the event
+		// that the check sees - and with it the verdict - would depend on the iteration order.
+		if stateKey := stateEvent.StateKey(); stateKey != nil {
+			if other := stateAuthEvents.events[StateKeyTuple{stateEvent.Type(), *stateKey}]; other != nil &&
+				(other.EventID() != stateEvent.EventID() || !bytes.Equal(other.JSON(), stateEvent.JSON())) {
+				return fmt.Errorf(
+					"gomatrixserverlib.VerifyAuthRulesAtState: event %s is not allowed at state %s : the state has two events for (%q, %q): %s and %s",
+					eventToVerify.EventID(), eventToVerify.EventID(), stateEvent.Type(), *stateKey, other.EventID(), stateEvent.EventID(),
+				)
+			}
 		}
 		if err := stateAuthEvents.AddEvent(stateEvent); err != nil {
 			return fmt.Errorf(
